@@ -269,6 +269,12 @@ func runC12(h *Harness) {
 		h.Violation("C12.post-crash-state", class+":"+cell.scenario+"/"+cell.outcome, "after a crash at %s %d (site %s) during %s (%s), the restarted validator (origin down, strict) answers %s, pure-probe pattern %s; allowed: not loaded%s%s", kind, k, site, cell.scenario, cell.outcome, desc, pat,
 			map[bool]string{true: ", exactly v" + fmt.Sprint(prev+1), false: ""}[prev >= 0], map[bool]string{true: ", exactly v" + fmt.Sprint(newV+1), false: ""}[cell.outcome == "accepted"])
 	}
+	// whatever the crashed operation left in the work_dir besides databases the validator uses under that name is a
+	// leftover artefact, whether or not its name matches the temporary pattern
+	h.R.Checks++
+	if stray := h.strayEntries(m.WorkDir, nil); len(stray) > 0 {
+		h.Violation("C12.temp-artefacts", "stray-after-startup", "after restart, startup cleaning and re-learning the location the work_dir still holds entries that are no database of the validator: %v (crash at %s %d, site %s)", stray, kind, k, site)
+	}
 	h.R.Sample = map[string]any{"cell": cell.scenario + "/" + cell.outcome, "crash": fmt.Sprintf("%s %d", kind, k), "site": site, "post": desc, "pattern": pat}
 	h.Cleanup(m)
 }
